@@ -22,6 +22,16 @@ def val_from_block(b):
 def run(op, a):
     if op == 1:
         t = tx_from_val(a[0])
+        if len(a[0][1]) % 3 == 0:
+            # a serialisation that fails (a value outside int64, caught by the caller) leaves nothing behind
+            from bitcoin.core import CMutableTransaction, CMutableTxOut
+            bad = CMutableTransaction.from_tx(t)
+            bad.vout.append(CMutableTxOut(1 << 63, b''))
+            for params in ({}, dict(include_witness=False)):
+                try:
+                    bad.serialize(params)
+                except Exception:  # noqa
+                    pass
         return t.serialize() if a[1] else t.serialize(dict(include_witness=False))
     if op == 2:
         return deser(CTransaction, a[1], a[2], val_from_tx)
